@@ -22,6 +22,7 @@ type kase struct {
 	Src     string `json:"src"`
 	B64     bool   `json:"b64,omitempty"`       // Src is base64 (the text is not valid UTF-8)
 	Stack   int    `json:"max_stack,omitempty"` // run in a reader-only worker with this goroutine stack ceiling (bytes)
+	MaxOut  int    `json:"max_out,omitempty"`   // bound on the bytes of output the case may produce (0 = unchecked)
 }
 
 func (k *kase) setSrc(b string) {
@@ -600,7 +601,7 @@ func buildSpace(name string, thorough bool, aux auxData) (*space, error) {
 			j := int(i) / len(profiles)
 			v := walkValues[j%nv]
 			c := walkContexts[j/nv]
-			k := kase{Space: name, Idx: i, Mode: "load", Limits: prof, Stratum: c.name + "/" + v.name,
+			k := kase{Space: name, Idx: i, Mode: "load", Limits: prof, Stratum: c.name + "/" + v.name, MaxOut: maxOutputBytes,
 				Pre: "(set 'd " + v.expr + ")", Src: strings.ReplaceAll(c.tmpl, "$V", v.expr)}
 			return k
 		}}, nil
@@ -623,7 +624,15 @@ func buildSpace(name string, thorough bool, aux auxData) (*space, error) {
 		for _, cy := range cyclics {
 			p.sinks(cy.pre, "cyc:"+cy.name, true)
 		}
-		return planSpace(name, p, "fuzz", 512, 256), nil
+		sp := planSpace(name, p, "fuzz", 512, 256)
+		inner := sp.Case
+		sp.Case = func(i int64) kase {
+			k := inner(i)
+			k.MaxOut = maxOutputBytes
+			return k
+		}
+		sp.WatchCPU = 30
+		return sp, nil
 	case "sink-deep", "sink-deep-heavy":
 		// the light space holds depths <= 10^4, the heavy one the rest
 		p := &plan{}
